@@ -255,6 +255,36 @@ def run(ctx):
     for case, res, real, model in pipe.run_cases(ctx, directed(ctx) + directed_paired(ctx)):
         ctx.count("directed")
         oracle(ctx, case, res, real)
+    multicore_count(ctx)
+
+
+def multicore_count(ctx):
+    """"the read is counted as reverse-complemented" also when several worker processes each reverse-complement reads and their counters are
+    merged: the reported count equals the number of reads written with the ` rc` suffix"""
+    rng = ctx.rng
+    for _ in range(ctx.scale(4, 30)):
+        ad = rng.choice(["AAAGGGCCCTTTG", "GATTACAGATTCC"])
+        reads = []
+        for i in range(rng.randint(40, 70)):
+            body = pipe.rs(rng, rng.randint(10, 25))
+            k = rng.random()
+            s_ = body + ad if k < 0.35 else revcomp(body + ad) if k < 0.8 else body
+            reads.append((f"r{i}", s_, "I" * len(s_)))
+        size = sum(len(n) + 2 * len(s_) + 6 for n, s_, _ in reads)
+        case = dict(argv=["-a", "a0=" + ad, "--revcomp", "-o", "{dir}/o1.fastq"], paired=False, reads1=reads, reads2=None, with_qual=True,
+                    interleaved_in=False, cores=rng.choice([2, 3, 4]), buffer_size=max(300, size // rng.randint(4, 8)))
+        res, real = pipe.run_real(case)
+        ctx.evaluations += 1
+        ctx.count("multicore-count-run")
+        if "error" in real:
+            ctx.failures.append(Failure("C16/multicore-run-failed", "--revcomp with several worker processes fails on a well-formed input",
+                                        dict(case_input(case), cores=case["cores"], buffer_size=case["buffer_size"]), real["error"], None))
+            continue
+        nrc = sum(1 for r in real["files"].get("o1.fastq", []) if r[0].endswith(" rc"))
+        if real.get("reverse_complemented") != nrc:
+            ctx.failures.append(Failure("C16/count", "reverse_complemented counter (merged over the worker processes) differs from the number of reads output in "
+                                        "reverse-complement orientation", dict(case_input(case), cores=case["cores"], buffer_size=case["buffer_size"]),
+                                        real.get("reverse_complemented"), nrc))
 
 
 def extended_search(ctx):
